@@ -3,7 +3,7 @@ C11 -- the diplotype is a faithful arrangement of the called alleles.
 
 Decided on a bounded domain, exhaustively: the arrangement function `estimate_diplotype` and the
 name renderers of MinorSolution are lifted and folded, in the checker's interpreter, on *every*
-multiset of 0..3 (thorough: 0..4, plus a seeded sample of 5-copy multisets) major alleles drawn from an 8-name sample catalogue (plain,
+multiset of 0..3 (thorough: 0..4, plus a seeded sample of 5-copy multisets) major alleles drawn from a 9-name sample catalogue (plain,
 lettered, fused names; three common tandems; gene with and without a deletion allele) in *every*
 permutation order.  Checked per arrangement: (R1) every copy exactly once, both haplotypes non-empty
 from two copies on, deletion placeholders exactly for the missing haplotypes; (R2) names shown =
@@ -27,7 +27,7 @@ PROPERTY = "C11"
 EXPLANATION = (
     "Bounded-exhaustive partial evaluation: diplotype::estimate_diplotype, solutions::MinorSolution.get_major_name / "
     "get_major_diplotype / get_minor_name are lifted and folded on every multiset of up to 3 (thorough: 5) alleles from "
-    "an 8-name sample catalogue, in every permutation, with and without a deletion allele (natsorted and re.split are "
+    "a 9-name sample catalogue, in every permutation, with and without a deletion allele (natsorted and re.split are "
     "supplied as pure functions). Each arrangement is checked against the clauses of the statement by an independent "
     "reading (partition, non-empty haplotypes, deletion placeholders, tandem adjacency, natural order, order independence)."
 )
@@ -35,7 +35,7 @@ ASSUMPTIONS = ["natsort's default ordering is modelled as digit/non-digit chunk 
                "shapes <number>, <number><letters>, <number>#<number>)",
                "the claim is bounded: multisets of at most 3 (quick) / 5 (thorough) copies"]
 
-CATALOGUE = ["1", "2", "4", "4N", "10", "36", "68#2", "13"]
+CATALOGUE = ["1", "2", "4", "4N", "5", "10", "36", "68#2", "13"]  # "5" doubles as the deletion allele when the gene has one
 TANDEMS = [("36", "10"), ("68", "4"), ("13", "1")]
 
 
